@@ -43,7 +43,7 @@ def main(run: Run):
         shapes += fc.gen_shapes(run, "random", num=(400 if thorough else 80), seed=run.seed)
         tr = run.execute("c04", "pkg/packet/bgp", "^TestVerifC04$", shapes, tag="c05-shapes")
         maxlen = 800 if thorough else 400
-        small, big, seen = [], [], set()
+        small, big, always, seen = [], [], [], set()
         for t in tr:
             for row in t:
                 if row.get("ev") != "Msg" or row["sererr"] or row["panic"]:
@@ -52,12 +52,19 @@ def main(run: Run):
                 if key in seen:
                     continue
                 seen.add(key)
-                m = {"bytes": row["bytes"], "opts": {k: row["opts"][k] for k in ("ext", "as2", "ap4", "apmp")}}
-                (small if len(row["bytes"]) <= maxlen else big).append(m)
+                o = row["opts"]
+                m = {"bytes": row["bytes"], "opts": {k: o[k] for k in ("ext", "as2", "ap4", "apmp")}}
+                if (row["shape"]["k"] == "ex" and len(row["bytes"]) <= 1200
+                        and not o["as2"] and (thorough or not (o["ap4"] or o["apmp"]))):
+                    # the example catalogue (every attribute type, all 26 families) is mutated in every
+                    # run, whatever the seed; the value-length-class shapes are sampled
+                    always.append(m)
+                else:
+                    (small if len(row["bytes"]) <= maxlen else big).append(m)
         rng.shuffle(small)
         rng.shuffle(big)
         big = [m for m in big if len(m["bytes"]) <= 4096]
-        msgs = small[:(200 if thorough else 110)] + big[:(3 if thorough else 1)]
+        msgs = always + small[:(170 if thorough else 80)] + big[:(3 if thorough else 1)]
         # 2. TLC enumerates (length field x mutation) over the real octets
         muts = gen_mutations(run, msgs)
         # sample per message, so that a message with a thousand NLRI does not crowd out the others
@@ -69,7 +76,7 @@ def main(run: Run):
             none = [m for m in lst if m["mut"]["m"] == "none"]
             rest = [m for m in lst if m["mut"]["m"] != "none"]
             rng.shuffle(rest)
-            cap = (110 if thorough else 60) if len(key[0]) <= maxlen else 25
+            cap = (110 if thorough else 60) if len(key[0]) <= max(maxlen, 1200) else 25
             behs += [json.dumps(m) for m in none + rest[:cap]]
         run.extra["mutations_enumerated"] = len(muts)
         run.extra["mutations_executed"] = len(behs)
